@@ -144,7 +144,7 @@ def run_listen(cfg, via, cfg_mode, ch, public_port=80):
                 if cfg['auth'] == 'basic':
                     kw['auth'] = AuthBasic(['alice'])
                 elif cfg['auth'] == 'stealth':
-                    kw['auth'] = AuthStealth(['alice'])
+                    kw['auth'] = AuthStealth(['my-laptop'])       # (client names may contain '-' and '+')
             base = len(sim.commands)
             # the public port as the caller wrote it: a number, or its text (accepted alike)
             pp_arg = str(public_port) if cfg.get('port_as_text') else public_port
@@ -176,7 +176,7 @@ def run_listen(cfg, via, cfg_mode, ch, public_port=80):
                     os.makedirs(the_dir, exist_ok=True)
                     with open(os.path.join(the_dir, 'hostname'), 'w') as f:
                         if cfg.get('auth'):
-                            f.write('clienthostname01.onion cookiecookiecookiecooki # client: alice\n')
+                            f.write('clienthostname01.onion cookiecookiecookiecooki # client: %s\n' % ('my-laptop' if cfg.get('auth') == 'stealth' else 'alice'))
                         else:
                             f.write(FS_ID + '.onion\n')
                     if cfg.get('auth'):
@@ -251,11 +251,21 @@ def run_listen(cfg, via, cfg_mode, ch, public_port=80):
                     if rec.fires and not viol:
                         viol.append(('listen-fired-before-descriptor-upload', cfg['kind'], '%r' % (rec.summary(),)))
                     # step 4: the descriptor uploads
-                    c_up = ch.choose(6, 'uploads')          # 0 one succeeds, 1 every upload fails, 2 caller cancels the wait, 3 another service's upload succeeds first, 4 connection lost during the wait, 5 connection lost before any upload was announced
+                    c_up = ch.choose(7, 'uploads')          # 0 one succeeds, 1 every upload fails, 2 caller cancels the wait, 3 another service's upload succeeds first, 4 connection lost during the wait, 5 connection lost before any upload was announced
                     hd = '$' + 'CD' * 20
                     if c_up == 5:
                         injected = 'lost-before-any-upload'
                         impl.wire.lose(failure.Failure(error.ConnectionLost()))
+                        sim.pump()
+                    if c_up == 6:
+                        # (6) two descriptors of the service go to the same directory, and both uploads fail
+                        injected = 'uploads-failed'
+                        sim.event('HS_DESC UPLOAD %s UNKNOWN %s desc1' % (the_sid, hd))
+                        sim.event('HS_DESC UPLOAD %s UNKNOWN %s desc2' % (the_sid, hd))
+                        sim.event('HS_DESC FAILED %s UNKNOWN %s desc1 REASON=UPLOAD_REJECTED' % (the_sid, hd))
+                        if rec.fires:
+                            viol.append(('listen-failed-early', cfg['kind'] + '/second-upload-to-the-directory-outstanding', '%r' % (rec.summary()[:2],)))
+                        sim.event('HS_DESC FAILED %s UNKNOWN %s desc2 REASON=UPLOAD_REJECTED' % (the_sid, hd))
                         sim.pump()
                     if c_up == 3:
                         sim.event('HS_DESC UPLOAD %s UNKNOWN %s descX' % (other, hd2))
@@ -263,11 +273,11 @@ def run_listen(cfg, via, cfg_mode, ch, public_port=80):
                         sim.pump()
                         if rec.fires:
                             viol.append(('listen-fired-before-descriptor-upload', cfg['kind'] + '/on-another-service-UPLOADED', '%r' % (rec.summary(),)))
-                    if c_up != 5:
+                    if c_up not in (5, 6):
                         sim.event('HS_DESC UPLOAD %s UNKNOWN %s desc1' % (the_sid, hd))
-                    if rec.fires and not viol and c_up != 5:
+                    if rec.fires and not viol and c_up not in (5, 6):
                         viol.append(('listen-fired-before-descriptor-upload', cfg['kind'] + '/on-UPLOAD', '%r' % (rec.summary(),)))
-                    if c_up == 5:
+                    if c_up in (5, 6):
                         pass
                     elif c_up in (0, 3):
                         sim.event('HS_DESC UPLOADED %s UNKNOWN %s' % (the_sid, hd))
